@@ -9,7 +9,7 @@ RM = {"SMALL": "R-C09-SMALL", "SMALLIO": "R-C09-SMALL", "MODE": "R-C09-CONSTR", 
 def run(ck, build):
     ck.rule("R-C09-CONSTR", "the six SIV functions against the documented construction (src/tinyjambu-*-siv.c header comment, tools/sivref/README.md): pass 1 = TinyJAMBU MAC with nonce domain 0x90 over "
             "(nonce, AD 0x30/5 rounds, plaintext 0x50/keyed rounds); pass 2 = setup with domain 0xB0, blocks under 0xD0, keyed rounds, plaintext never absorbed; bit-level provenance of every emitted byte")
-    ck.rule("R-C09-SMALL", "independent of the loop structure: each of the six SIV functions for EVERY message length 0..40 as straight path(s) (length concrete, data symbolic): pass 1 = setup(npub, 0x90), "
+    ck.rule("R-C09-SMALL", "independent of the loop structure: each of the six SIV functions for EVERY message length 0..100 as straight path(s) (length concrete, data symbolic): pass 1 = setup(npub, 0x90), "
             "absorb(ad, 0x30, 5 rounds), absorb(plaintext, 0x50, keyed rounds), tag at c + mlen; pass 2 = setup(npub[0..3] || tag, 0xB0) and one keyed permutation with frame bits 0xD0 per word, output = "
             "input xor word 2, nothing absorbed; decrypt mirrors it and compares the regenerated tag; longer messages are R-C09-CONSTR's generic iteration")
     ck.rule("R-C09-DEP", "the second-pass state is derived from setup(key, npub[0..3] || tag) only and no pass-2 block absorbs anything: the keystream depends on key, first four nonce bytes and the tag, "
